@@ -57,6 +57,23 @@ def drive(tier):
         cases.append((b"", keypush + b"\x76\xac", ()))
         cases.append((b"\x00" + sigish, b"\x51" + keypush + b"\x51\xae", ("NULLDUMMY",)))
         cases.append((b"\x00" + sigish, b"\x51" + keypush + keypush + b"\x52\xaf\x51", ()))
+    # several hundred distinct well-formed signatures reach the signature check in one process, one of them twice
+    def dersig(i):
+        rr = (1 + 7919 * (i + 1) % 0x7fffff).to_bytes(3, "big")
+        ss = (1 + 104729 * (i + 3) % 0x7fffff).to_bytes(3, "big")
+        body = b"\x02\x03" + rr + b"\x02\x03" + ss
+        return bytes(CScript([b"\x30" + bytes([len(body)]) + body + b"\x01"]))
+    pkpush = b"\x21\x02" + bytes(31) + b"\x01"
+    for i in [0, 1, 1] + list(range(2, 420 if tier == "quick" else 2000)):
+        cases.append((dersig(i), pkpush + b"\xac", ()))
+    # flags the library names but does not implement must not matter for containment either
+    import bitcoin.core.scripteval as se_
+    allflags = sorted(se_.SCRIPT_VERIFY_FLAGS_BY_NAME)
+    for fl in (tuple(allflags), ("CHECKLOCKTIMEVERIFY",), ("CHECKLOCKTIMEVERIFY", "P2SH"), ("STRICTENC", "DERSIG", "LOW_S"), ("MINIMALDATA", "SIGPUSHONLY")):
+        for spk_ in (b"\x00\xb1", b"\x51\xb1", b"\x04\xff\xff\xff\x7f\xb1", b"\x05\x00\x00\x00\x00\x01\xb1", b"\xb1", b"\x4f\xb1", b"\x51\xb2\x51",
+                     b"\x03\x00\x00\x01\xb1\x75\x51", sigish + pkpush + b"\xac"):
+            cases.append((b"", spk_, fl))
+            cases.append((b"\x51", spk_, fl))
     for n in (1001, 1002, 1100, 1200, 1500):
         for tail in (b"\x4c", b"\x4d\x05", b"\x6a", b"\xff", b"\x05\x01", b"\x75" * 3 + b"\x6a"):
             cases.append((b"\x00" * n + tail, b"\x51", ()))
@@ -101,7 +118,7 @@ def drive(tier):
         same = tx.serialize() == before and bytes(ssig) == sig and bytes(spk) == pk
         out = {"k": "ok", "same": same} if k == "ret" else dict(T._err(v), same=same)
         # verdict judged by the spec for everything short, and for a sample of the long ones
-        judge = (len(sig) + len(pk) <= 200) or r.random() < 0.05
+        judge = ((len(sig) + len(pk) <= 200) or r.random() < 0.05) and all(f in c06.FLAGNAMES for f in fl)
         if judge:
             judged += 1
         R.add("vm.verify" if judge else "vm.contain",
